@@ -38,7 +38,7 @@ BOUNDS = {
                   RefCDIds={5}, RefLonIds=set(range(1, 10)), RefLatIds=set(range(1, 9)),
                   HistCalls=CALLS6, MaxHist=4, ShortKinds={"TAN", "SIP"}, HistArgModes={"scalar", "buffer"},
                   ReprCalls={"i2s_d", "s2i_dr", "s2i_dp", "s2i_np", "jac"}, ReprKinds={"TAN", "TPV", "SIP"}),
-    "thorough": dict(Projs=_ALL, CDIds=set(range(1, 13)), PixIds=set(range(1, 7)), CrpixIds={1, 2}, MaxExtra=1, SipMaxOrder=4,
+    "thorough": dict(Projs=_ALL, CDIds={1, 2, 5, 7, 9, 12}, PixIds=set(range(1, 6)), CrpixIds={1, 2}, MaxExtra=1, SipMaxOrder=4,
                      SkyCDIds=set(range(1, 9)), SkyLons={0, 10, 90, 180, 270, 350, 359},
                      SkyLats={0, 1, 30, 45, 60, 90, 120, 135, 140, 150, 175, 180},
                      RefCDIds={1, 5, 9}, RefLonIds=set(range(1, 10)), RefLatIds=set(range(1, 9)),
